@@ -449,3 +449,31 @@ CHECKS["C12"] = dict(
                  "event could end", "same reach limits as C10"],
     require=dict(noisy_runs=500, runs_reaching_quiescence_with_full_progress=300, directed_windows_reached=5, runs_closing_twice=50, consumer_points_held_across_laps=50),
 )
+
+# ---- additions after seed round 7 (appended to the descriptions above) -----------------------------------------
+_ADD = {
+    "C01": " A quarter of the cases run after a pool history (see C02); UpdateContext steps are accompanied by a copy of the logger taken "
+           "before the update and updated afterwards (its field must never show).",
+    "C02": " Half of the cases run after a pool history: filtered, discarded and unfinished events that were handed arrays, dictionaries and "
+           "objects of their own.",
+    "C04": " During the inertness sweep the package-level callbacks (TimestampFunc, the error / stack / interface / caller / level marshal "
+           "functions) are replaced by counting ones.",
+    "C06": " Some chains start with Logger.Panic() (recovered): the event carries a completion callback while other goroutines take events "
+           "from the same pool.",
+    "C08": " The settings include caller-supplied InterfaceMarshalFunc values (wrapping, always failing): whatever they render, both builds "
+           "must show the same.",
+    "C14": " Panic-level events start with Logger.Panic() (recovered) in half of the cases.",
+    "C15": " Some bodies end in CR LF or consist of CR LF only.",
+    "C17": " Text contents are also enumerated from 18 units (ASCII needing escapes, well-formed multi-byte runes incl. U+FFFD, truncated / "
+           "overlong / surrogate / out-of-range sequences) up to three units, in six positions. A shard whose input runs for 20 s stops with "
+           "a suspicion; the witness is decoded alone under RLIMIT_CPU (200 CPU-seconds) and reported as non-termination if it uses them up.",
+    "C18": " Remote addresses include bare IPv6 literals without port.",
+    "C19": " Every third statement runs after a pool history: events discarded (by the caller or a hook), filtered, panicking or written "
+           "elsewhere, with skip counts of their own.",
+}
+for _k, _v in _ADD.items():
+    CHECKS[_k]["level_text"] += _v
+CHECKS["C19"]["require"]["statements_after_pool_history"] = 300
+CHECKS["C02"].setdefault("require", {})["cases_after_pool_history"] = 1000
+CHECKS["C06"].setdefault("require", {})["panic_entry_events"] = 100
+CHECKS["C17"]["require"]["text_grid_inputs"] = 10000
